@@ -228,6 +228,41 @@ def get_mprocess_ytype2_set_kraus_matrices""", """    (plus,), (minus,) = _xtype
 def get_mprocess_ytype2_set_kraus_matrices""")])
 
 
+def m10():
+    """generate_gate_from_gate_name memoises the Gate per (name, dimension, relative order of the ids): a second
+    composite system of the same size gets the Gate that lives on the first one"""
+    edit(GT, [("""def generate_gate_from_gate_name(
+    gate_name: str,
+    c_sys: CompositeSystem,
+    ids: List[int] = None,
+    is_physicality_required: bool = True,
+) -> "Gate":
+""", """_GATE_CACHE = {}
+
+
+def generate_gate_from_gate_name(
+    gate_name: str,
+    c_sys: CompositeSystem,
+    ids: List[int] = None,
+    is_physicality_required: bool = True,
+) -> "Gate":
+    key = (gate_name, c_sys.dim, tuple(np.argsort(ids or [])), is_physicality_required)
+    if key not in _GATE_CACHE:
+        _GATE_CACHE[key] = _generate_gate_from_gate_name(
+            gate_name, c_sys, ids, is_physicality_required
+        )
+    return _GATE_CACHE[key]
+
+
+def _generate_gate_from_gate_name(
+    gate_name: str,
+    c_sys: CompositeSystem,
+    ids: List[int] = None,
+    is_physicality_required: bool = True,
+) -> "Gate":
+""")])
+
+
 if __name__ == "__main__":
     globals()[sys.argv[1]]()
     print("applied", sys.argv[1], "to", ROOT)
